@@ -32,6 +32,7 @@ void h_length_canonical(void)
 	if (claimed > avail) ASSUME((buf[0] < 0x80 && avail >= 1) || ((buf[0] & 0x7f) + 1u <= avail));
 	int ret = asn1_length_from_der(&len, &cp, &inlen);
 	if (ret == 1) {
+		V_COVER("accept path 1");
 		uint8_t re[8]; uint8_t *p = re; size_t relen = 0;
 		CHECK(asn1_length_to_der(len, &p, &relen) == 1, "re-encode");
 		CHECK(relen == (size_t)(cp - buf), "accepted length has the minimal size");
@@ -69,6 +70,7 @@ static void int_canon(size_t n)
 	const uint8_t *cp = buf, *b; size_t inlen = n, blen;
 	int ret = asn1_integer_from_der(&b, &blen, &cp, &inlen);
 	if (ret == 1) {
+		V_COVER("accept path 2");
 		size_t used = n - inlen;
 		uint8_t re[LMAX + 8]; uint8_t *p = re; size_t relen = 0;
 		CHECK(asn1_integer_to_der(b, blen, &p, &relen) == 1, "re-encode");
@@ -101,6 +103,7 @@ static void int_c(size_t n)
 	const uint8_t *cp = buf; size_t inlen = n; int v = -2;
 	int ret = asn1_int_from_der(&v, &cp, &inlen);
 	if (ret == 1) {
+		V_COVER("accept path 3");
 		CHECK(v >= 0, "decoded int is non-negative");
 		uint8_t re[8]; uint8_t *p = re; size_t relen = 0;
 		CHECK(asn1_int_to_der(v, &p, &relen) == 1 && relen == n - inlen, "accepted int is minimal");
@@ -122,6 +125,7 @@ void h_boolean(void)
 	const uint8_t *cp = buf; size_t inlen = n; int v = -7;
 	int ret = asn1_boolean_from_der(&v, &cp, &inlen);
 	if (ret == 1) {
+		V_COVER("accept path 4");
 		CHECK(n >= 3 && buf[0] == 0x01 && buf[1] == 0x01 && (buf[2] == 0xff || buf[2] == 0x00), "accepted BOOLEAN is 01 01 00/FF");
 		CHECK(v == (buf[2] == 0xff) && inlen == n - 3, "value and consumption");
 	}
